@@ -495,7 +495,8 @@ def run(chk):
             first = next((a for a in atoms if ATOMS[a].kind is not None and KINDS[ATOMS[a].kind] in bad_touch), atoms[0])
             chk.violation(f"effect:{ATOMS[first].site[1]}:{ATOMS[first].perm}:touched",
                           f"under permissions {on} the {bad_touch} double(s) were touched ({touches}) although no builtin using them was "
-                          f"reached with its permission enabled", dict(replay, touches=touches, got=inst))
+                          f"reached with its permission enabled", dict(replay, touches=touches, got=inst,
+                                                                        must_not_touch=[i for i in range(3) if KINDS[i] in bad_touch]))
             impl_violation = True
             continue
         if ri.get("compile_touches") != [0, 0, 0]:
@@ -549,11 +550,27 @@ def _resp_fail_c11(r):
 
 
 def replay(path):
+    """./check C11 --replay FILE: re-run the recorded program under the recorded permissions on the current tree"""
     d = json.load(open(path))
     r = d["replay"]
     if "src" not in r:
-        print(json.dumps(d, indent=1))
+        print(f"replay {d.get('key')}: nothing executable recorded ({d.get('what', '')[:200]})")
         return 1
     out = run_harness([{"op": "run", "src": r["src"], "get": r.get("get", []), "limits": r.get("limits", {})}])[0]
-    print(json.dumps({"key": d["key"], "what": d["what"], "now": out}, indent=1))
+    inst = out.get("inst")
+    got = None
+    if isinstance(inst, dict):
+        v = inst["viol"]
+        got = v[len('PermissionError("'):-2] if v.startswith("PermissionError(") else "other:" + v
+    ok = _resp_fail_c11(out) is None
+    if ok and "expected" in r:
+        ok = got == r["expected"]
+    if ok and "must_not_touch" in r:
+        ok = all(out["touches"][i] == 0 for i in r["must_not_touch"])
+    print(f"replay {d.get('key')}: outcome {inst}, touches {out.get('touches')} (expected violation: {r.get('expected', 'n/a')}, "
+          f"doubles that must stay untouched: {[KINDS[i] for i in r.get('must_not_touch', [])]})")
+    if ok:
+        print("OK property=C11 replay passes on the current tree")
+        return 0
+    print(f"VIOLATION property=C11 replay={path}")
     return 1
